@@ -1,4 +1,5 @@
 """C05 — which files are searched follows the documented precedence of filters."""
+import itertools
 from .. import cfg as C
 from .. import hirx as H
 from ..flow import ExprBuilder, mentions_field, mentions_call, is_call, is_field, walk, show, cond_switches, \
@@ -850,6 +851,63 @@ def order_rule(r, f, owner, field, why):
     if not found:
         r.bad("order|" + field, "anchor-missing: no loop over %s.%s in %s" % (owner.split("::")[-1], field, f.name), fn=f)
 
+
+def gitdir_rule(ctx, r):
+    facts = ctx.facts
+    f = facts.fn("ignore::dir::resolve_git_commondir")
+    eb = ExprBuilder(f)
+    closures = {g.path: g for g in facts.closures_of(f.path)}
+    opens = f.calls_to("std::fs::File::open")
+    # the second open is the one of <git dir>/commondir: its path comes from a closure over the git directory read from the file
+    cd_open = None
+    for c in opens:
+        e = eb.operand(c.args[0])
+        for x in walk(e):
+            if x.k == "closure" and x[1] in closures and any(
+                    (op_const(a) or {}).get("str", "").strip('"') == "commondir" or "commondir" in str(a)
+                    for c2 in closures[x[1]].calls() for a in c2.args):
+                cd_open = (c, closures[x[1]])
+    if cd_open is None:
+        r.bad("gitdir|relative", "anchor-missing: no open of <git dir>/commondir in resolve_git_commondir", fn=f)
+        return
+    c, clo = cd_open
+    # what the closure captured: the git directory; it must be dir.join(<text after `gitdir: `>) — Path::join keeps an
+    # absolute right-hand side as it is and anchors a relative one at `dir`, the directory the `.git` file lives in
+    cap = [eb.rvalue(st["rv"]) for bb, j, st in f.stmts() if st["k"] == "assign" and st["rv"]["k"] == "agg" and st["rv"].get("closure") == clo.path]
+    joined = any(any(is_call(x, "std::path::Path::join") and x[3] and any(y.k == "arg" and y[1] == 1 for y in walk(x[3][0])) and
+                     any(y.k == "const" and "gitdir: " in str(y[2]) for y in walk(x[3][1])) for x in walk(e)) for e in cap)
+    if joined:
+        r.ok("gitdir|relative", "git dir = dir.join(text after `gitdir: `)", fn=f)
+    else:
+        r.bad("gitdir|relative", "resolve_git_commondir uses the `gitdir:` path of a `.git` file as written: a relative one (git >= 2.48 "
+              "--relative-paths, hand-made worktrees) is resolved against the process's working directory, so info/exclude is "
+              "honoured only when rg is started in the worktree's root", fn=f, loc=c.loc, construct="gitdir")
+    # the kind of `.git` (directory or file) must be known wherever info/exclude is looked up — also under --no-require-git
+    acp = facts.fn("ignore::dir::Ignore::add_child_path")
+    eba = ExprBuilder(acp)
+    rc = acp.calls_to("ignore::dir::resolve_git_commondir")
+    md = [c2 for c2 in acp.calls() if c2.path.endswith("Path::metadata")]
+    req = cond_switches(acp, lambda e: any(x.k == "field" and x[3] == "require_git" for x in walk(e)) and
+                        not any(x.k == "field" and x[3] in ("git_ignore", "git_exclude") for x in walk(e)), eba)
+    if rc and md and mentions_call(eba.operand(rc[0].args[1]), "std::path::Path::metadata"):
+        if req and not guarded(acp, [md[0].bb], req, True):
+            r.bad("gitdir|no-require-git", "add_child_path looks at the kind of `.git` only under require_git: with --no-require-git a "
+                  "`.git` *file* (worktree, submodule) is taken for a directory, `<dir>/.git/info/exclude` does not exist, and the "
+                  "exclude rules that apply with the default flags are silently dropped", fn=acp, loc=md[0].loc, construct="gitdir")
+        else:
+            r.ok("gitdir|no-require-git", "the kind of `.git` is determined whenever git_exclude is on", fn=acp)
+    else:
+        r.bad("gitdir|no-require-git", "anchor-missing: add_child_path no longer passes the file type of `.git` to resolve_git_commondir", fn=acp)
+    # no commondir file (submodule, --separate-git-dir): the git directory is its own common directory
+    s_ = seed_after_call(f, c, V("Err", None))
+    vals = {x for v in s_.ret_values.values() for x in value_set(v)}
+    if vals and all(v is not None and v[0] == "v" and v[1] == "Ok" for v in vals):
+        r.ok("gitdir|no-commondir", "commondir cannot be opened ⇒ Ok(the git directory)", fn=f)
+    else:
+        r.bad("gitdir|no-commondir", "when <git dir>/commondir does not exist resolve_git_commondir gives up (%s): for a submodule or "
+              "`git init --separate-git-dir` work tree $GIT_DIR/info/exclude is never read" % sorted(map(str, vals)), fn=f, loc=c.loc,
+              construct="gitdir")
+
 def run(ctx):
     facts = ctx.facts
     with ctx.rule("C05.CWDROOT", "rules of --ignore-file and of the global git ignore file are anchored at the current directory, so they "
@@ -996,10 +1054,58 @@ def run(ctx):
                 r.bad("add_parents|skip", "add_parents skips the parent directories under another condition: %s" % detail, fn=ap,
                       construct="add_parents")
         # (b) has_git of a parent / child matcher
+        # add_child_path: decided on the value stored in IgnoreInner::has_git (8 rows, `.git` assumed to exist): whether the
+        # *kind* of `.git` is looked up is a different question (C05.GITDIR|gitdir|no-require-git) and was wrongly tied to
+        # this table before
+        hg_ops = [(bb, st["rv"]["ops"][st["rv"]["fields"].index("has_git")]) for bb, j, st in acp.stmts()
+                  if st["k"] == "assign" and st["rv"]["k"] == "agg" and str(st["rv"].get("adt", "")).endswith("IgnoreInner") and
+                  "has_git" in st["rv"].get("fields", [])]
+        eba_ = ExprBuilder(acp)
+        fsw = {n: cond_switches(acp, lambda e, n=n: is_field(strip(e), OPTS, n), eba_) for n in ("require_git", "git_ignore", "git_exclude")}
+        if not hg_ops or not all(fsw.values()):
+            r.bad("add_child_path|has_git", "anchor-missing: IgnoreInner::has_git / the option tests of add_child_path", fn=acp)
+        else:
+            wrong = []
+            for rq, gi, ge in itertools.product([0, 1], repeat=3):
+                removed = set()
+                for n, v_ in (("require_git", rq), ("git_ignore", gi), ("git_exclude", ge)):
+                    removed |= {(x[2] if v_ else x[1]) for x in fsw[n]}
+
+                def model(call, argv):
+                    if call.path.endswith("Option::map") and argv and argv[0] is not None and argv[0][0] == "v" and argv[0][1] == "Some":
+                        # the closure's constant answer, if it has one (`.map(|_| true)`)
+                        payload = None
+                        for x in walk(eba_.operand(call.args[1])):
+                            if x.k == "closure" and x[1] in facts.fns:
+                                sc = Sccp(facts.fns[x[1]]).run([(0, {})])
+                                vs = {y for v2 in sc.ret_values.values() for y in value_set(v2)}
+                                if len(vs) == 1 and None not in vs:
+                                    payload = next(iter(vs))
+                        return V("Some", payload)
+                    if call.path.endswith("Option::map") and argv and argv[0] is not None and argv[0][0] == "v" and argv[0][1] == "None":
+                        return V("None", None)
+                    if call.path.endswith("Result::ok") and argv and argv[0] is not None and argv[0][0] == "v" and argv[0][1] == "Ok":
+                        return V("Some", None)
+                    if call.path.endswith("Path::metadata"):
+                        return V("Ok", None)
+                    if call.path.endswith("Option::is_some") and argv and argv[0] is not None and argv[0][0] == "v":
+                        return I(1 if argv[0][1] == "Some" else 0)
+                    if call.path.endswith("Option::unwrap_or") and argv and argv[0] is not None and argv[0][0] == "v":
+                        return argv[0][2] if argv[0][1] == "Some" else argv[1]
+                    return None
+                sx = Sccp(acp, call_model=model, removed_edges=removed).run([(0, {})])
+                bb, op = hg_ops[0]
+                val = sx._operand(sx.env_in.get(bb, {}), op) if bb in sx.exec_blocks else None
+                want = I(1 if (rq and (gi or ge)) else 0)
+                if val != want:
+                    wrong.append("require_git=%d git_ignore=%d git_exclude=%d ⇒ %s" % (rq, gi, ge, val))
+            if wrong:
+                r.bad("add_child_path|has_git", "add_child_path marks a directory holding `.git` as a repository under another condition than "
+                      "require_git ∧ (git_ignore ∨ git_exclude): %s" % "; ".join(wrong[:3]), fn=acp, construct="has_git")
+            else:
+                r.ok("add_child_path|has_git", "has_git ⇔ require_git ∧ (git_ignore ∨ git_exclude) ∧ `.git` exists (8 rows)", fn=acp)
         for f, key, atoms2, spec in (
-                (ap, "add_parents|has_git", [O + "require_git", O + "git_ignore"], lambda v: v[O + "require_git"] and v[O + "git_ignore"]),
-                (acp, "add_child_path|git_type", [O + "require_git", O + "git_ignore", O + "git_exclude"],
-                 lambda v: v[O + "require_git"] and (v[O + "git_ignore"] or v[O + "git_exclude"]))):
+                (ap, "add_parents|has_git", [O + "require_git", O + "git_ignore"], lambda v: v[O + "require_git"] and v[O + "git_ignore"]),):
             x = cond_with(f, [O + "require_git"])
             if x is None:
                 r.bad(key, "anchor-missing: the require_git test of %s" % f.name, fn=f)
@@ -1054,6 +1160,9 @@ def run(ctx):
     with ctx.rule("C05.GIT", "git-sourced rules only inside a repository (or --no-require-git), stopping at the repository root",
                   floor=6, kind="GUARD") as r:
         git_rule(ctx, r)
+    with ctx.rule("C05.GITDIR", ".git/info/exclude is found for every shape of `.git`: a `gitdir:` path is taken relative to the "
+                  "directory holding the file; no commondir file means the git directory itself", floor=3, kind="FLOW/A3") as r:
+        gitdir_rule(ctx, r)
     with ctx.rule("C05.NEAREST", "nearest directory wins within a source; parents only under opts.parents", floor=9, kind="GUARD") as r:
         nearest_rule(ctx, r)
     with ctx.rule("C05.TOP", "override/ignore short-circuits; hidden only if nothing matched; override semantics", floor=7,
